@@ -13,6 +13,8 @@ CONFIGS_Q = [
     ("2g2b", 2, 2, [("g1", 1), ("g2", 2)], 1),
     ("2g1b_same", 2, 1, [("g1", 1), ("g2", 1)], 1),
     ("3g2b", 3, 2, [("g1", 1), ("g2", 2), ("g3", 1)], 1),
+    # growers that are threads of one process (same pid) growing the same batch
+    ("2g1b_same_pid", 2, 1, [("g1", 1), ("g2", 1)], 1),
 ]
 CONFIGS_T = CONFIGS_Q + [
     ("3g3b", 3, 3, [("g1", 1), ("g2", 2), ("g3", 3)], 1),
@@ -20,6 +22,7 @@ CONFIGS_T = CONFIGS_Q + [
     ("3g1b_same", 2, 1, [("g1", 1), ("g2", 1), ("g3", 1)], 1),
     ("3g3b_p2", 6, 3, [("g1", 3), ("g2", 1), ("g3", 2)], 2),
     ("4g2b", 4, 2, [("g1", 1), ("g2", 2), ("g3", 1), ("g4", 2)], 1),
+    ("3g2b_same_pid", 3, 2, [("g1", 1), ("g2", 2), ("g3", 1)], 1),
 ]
 
 
@@ -32,7 +35,7 @@ def _one_config(job):
         pass
     setup = cropfs.Setup(n, nb)
     try:
-        writers = [(w, b, 9000 + k) for k, (w, b) in enumerate(wr)]
+        writers = [(w, b, 9000 if label.endswith("_pid") else 9000 + k) for k, (w, b) in enumerate(wr)]
         progs, names = cropfs.record_programs(setup, writers)
         out["programs"] = {w: [list(op) for op in ops] for w, ops in progs.items()}
         consts = cropfs.model_constants(progs, writers, setup.nb, npolls, max_sleeps=2)
@@ -150,7 +153,7 @@ def replay(rep, case):
     label, n, nb, wr, npolls = cfg
     setup = cropfs.Setup(n, nb)
     try:
-        writers = [(w, b, 9000 + k) for k, (w, b) in enumerate(wr)]
+        writers = [(w, b, 9000 if label.endswith("_pid") else 9000 + k) for k, (w, b) in enumerate(wr)]
         obs = cropfs.execute(setup, writers, [tuple(s) for s in case["steps"]], npolls)
         print("drift:", obs["drift"])
         prob, tag = cropfs.judge(setup, obs, True)
